@@ -122,7 +122,7 @@ def shrink(case, fails):
 
 model_requests = None
 POINTS2 = {}          # program points of the two-queue LTS exercised by the replayed schedules (main process)
-STATS2 = dict(replayed=0, deadlock=0, done=0)
+STATS2 = dict(replayed=0, deadlock=0, done=0, disagree=0)
 
 
 def model_obs(case, resps):
@@ -139,7 +139,10 @@ def model_obs(case, resps):
 
 def compare(obs, m):
   if m is not None and m.get('two_level'):
-    return lp2.compare(obs, m)
+    w = lp2.compare(obs, m)
+    if w is not None:
+      STATS2['disagree'] += 1
+    return w
   return lp.compare(obs, m)
 
 
@@ -205,7 +208,8 @@ def lts2_stage(ctx):
   missing = [p for p in lp2.PROMISED if p not in POINTS2]
   ctx.notes.append(f'two-queue LTS: {STATS2["replayed"]} real two-level runs replayed step by step, '
                    f'{len(POINTS2)} program points exercised ({len(lp2.PROMISED)} promised, missing {missing})')
-  if missing:
+  # a disagreeing replay is reported by the runner (VIOLATION); coverage is only promised for the agreeing tree
+  if missing and not STATS2['disagree']:
     raise InfraError(f'two-level replays missed promised program points of Model/Piter2.lean: {missing}')
   confs = EXPLORE_QUICK if ctx.quick else EXPLORE_THOROUGH
   reqs = []
